@@ -104,7 +104,23 @@ fn run_op(op: &str, shape: usize, n: usize) -> String {
                 // nested arrays of different length at the same position: [[a, a]] against [[a]]
                 let wrap = |items: &[&[u8]]| { let mut o = vec![]; jsonb::build_array(items.iter().copied(), &mut o).map(|_| o) };
                 let nested = (|| { let x2 = wrap(&[&a, &a])?; let p = wrap(&[&x2])?; let x1 = wrap(&[&a])?; let q = wrap(&[&x1])?; Ok::<_, jsonb::Error>((p, q)) })();
-                let extra = match nested { Ok((p, q)) => jsonb::compare(&p, &q).is_ok() && jsonb::compare(&q, &p).is_ok(), Err(_) => false };
+                let mut extra = match nested { Ok((p, q)) => jsonb::compare(&p, &q).is_ok() && jsonb::compare(&q, &p).is_ok(), Err(_) => false };
+                // small depths: chains whose innermost arrays have different lengths ([..[1,2,3]..] against [..[1]..])
+                if n <= 48 {
+                    let one = [0x20u8, 0, 0, 0, 0x20, 0, 0, 2, 0x50, 1];
+                    let chain = |k: usize| -> Result<Vec<u8>, jsonb::Error> {
+                        let items: Vec<&[u8]> = (0..k).map(|_| &one[..]).collect();
+                        let mut cur = wrap(&items)?;
+                        for _ in 1..n {
+                            cur = wrap(&[&cur])?;
+                        }
+                        Ok(cur)
+                    };
+                    match (chain(3), chain(1), chain(0)) {
+                        (Ok(x), Ok(y), Ok(z)) => extra = extra && jsonb::compare(&x, &y).is_ok() && jsonb::compare(&y, &x).is_ok() && jsonb::compare(&x, &z).is_ok() && jsonb::compare(&z, &y).is_ok(),
+                        _ => extra = false,
+                    }
+                }
                 match (jsonb::compare(&a, &b), jsonb::compare(&a, &c), jsonb::compare(&c, &a), jsonb::compare(&a, &d)) { (Ok(_), Ok(_), Ok(_), Ok(_)) if extra => "ok", _ => "err" }
             }
             "get_by_path" => {
